@@ -37,7 +37,7 @@ MANIFEST = {
             'fmt=F the result equals escape(render of fmt=F alone), with a '
             'modifier M it equals M applied to the escaped text (8 formats, '
             '9 modifiers, three spellings each).',
-    'more': 'Also: long values (31..4097 characters to escape, one special character far into a long text) and multi-line values with every kind of line separator, as text and as bytes.',
+    'more': 'Also: long values (31..4097 characters to escape, one special character far into a long text) and multi-line values with every kind of line separator, as text and as bytes. Bytes pass through a template of the other encoding immediately before every bytes observation.',
     'note': 'Trusted: html.escape of the standard library as the definition '
             'of "standard HTML escaping (with quotes)". The list of forms is '
             'the bound on "every insertion form".',
